@@ -33,6 +33,7 @@ func init() { core.Register(&H{}) }
 type Req struct {
 	Body        string        `json:"body"`
 	Gzip        bool          `json:"gzip"`
+	GzipCuts    []int         `json:"gzip_members_cut_at,omitempty"` // gzip only: the body is sent as several concatenated gzip members (as `cat a.gz b.gz` gives), cut at these byte positions
 	Chunks      []int         `json:"chunks"`        // sizes of successive reads of the (possibly compressed) body; the rest comes in one read
 	EOFWithData bool          `json:"eof_with_data"` // the last read returns (n>0, io.EOF)
 	Delay       time.Duration `json:"delay"`
@@ -91,8 +92,14 @@ func (h *H) Gen(rng *rand.Rand, tier, prop string) core.Cfg {
 		tag := byte('0' + i)
 		r := Req{Body: genBody(rng, tag, tier), Gzip: core.Chance(rng, 0.3), Client: rng.IntN(nclients), EOFWithData: core.Chance(rng, 0.5)}
 		wire := len(r.Body)
+		if r.Gzip && len(r.Body) > 1 && core.Chance(rng, 0.3) {
+			for k, at := core.Between(rng, 1, 2), 0; k > 0 && at < len(r.Body)-1; k-- {
+				at = core.Between(rng, at+1, len(r.Body)-1)
+				r.GzipCuts = append(r.GzipCuts, at)
+			}
+		}
 		if r.Gzip {
-			wire = len(gz(r.Body))
+			wire = len(gz(r.Body, r.GzipCuts))
 		}
 		rest := wire
 		for rest > 0 && len(r.Chunks) < 64 {
@@ -153,6 +160,13 @@ func (h *H) Shrink(cc core.Cfg) []core.Cfg {
 		if r.Gzip {
 			d := clone()
 			d.Reqs[i].Gzip = false
+			d.Reqs[i].GzipCuts = nil
+			d.Reqs[i].Chunks = nil
+			out = append(out, d)
+		}
+		if len(r.GzipCuts) > 0 {
+			d := clone()
+			d.Reqs[i].GzipCuts = nil
 			d.Reqs[i].Chunks = nil
 			out = append(out, d)
 		}
@@ -170,11 +184,22 @@ func (h *H) Shrink(cc core.Cfg) []core.Cfg {
 	return out
 }
 
-func gz(s string) []byte {
+func gz(s string, cuts []int) []byte {
 	var b bytes.Buffer
-	w := gzip.NewWriter(&b)
-	w.Write([]byte(s))
-	w.Close()
+	from := 0
+	for _, at := range append(append([]int(nil), cuts...), len(s)) {
+		if at <= from || at > len(s) {
+			continue
+		}
+		w := gzip.NewWriter(&b)
+		w.Write([]byte(s[from:at]))
+		w.Close()
+		from = at
+	}
+	if from == 0 {
+		w := gzip.NewWriter(&b)
+		w.Close()
+	}
 	return b.Bytes()
 }
 
@@ -336,7 +361,7 @@ func (h *H) Run(cc core.Cfg, sim *simrt.Sim) *core.Outcome {
 					wire := []byte(r.Body)
 					hdr := http.Header{}
 					if r.Gzip {
-						wire = gz(r.Body)
+						wire = gz(r.Body, r.GzipCuts)
 						hdr.Set("Content-Encoding", "gzip")
 					}
 					if r.ContentType != "" {
